@@ -824,9 +824,21 @@ class FunctionParser(BaseParser):
         self, generator: AsyncGenerator, context: RuntimeContext
     ):
         i = 0
-        async for item in generator:
+        sent = None
+        while True:
+            # like sync_from_generator: what the generator yields in response to a sent value
+            # is the next item of the transcript, it must not be dropped
+            try:
+                if sent is not None:
+                    item = await generator.asend(sent)
+                else:
+                    item = await generator.__anext__()
+            except StopAsyncIteration:
+                return
+
             if inspect.isasyncgen(item):
                 generator = item
+                sent = None
                 continue
 
             if self.generator_yield_type:
@@ -855,11 +867,6 @@ class FunctionParser(BaseParser):
                             origin_exc=e,
                         )
                         context.handle_error(error, force_raise=True)
-                # await generator.asend(sent)
-                try:
-                    await generator.asend(sent)
-                except StopAsyncIteration:
-                    return
             i += 1
 
     def get_async_generator(
@@ -893,13 +900,16 @@ class FunctionParser(BaseParser):
         @wraps(self.obj)
         async def async_generator(*args, **kwargs):
             async_gen = eager_generator(*args, **kwargs)
-            async for item in async_gen:
+            sent = None
+            while True:
+                try:
+                    if sent is not None:
+                        item = await async_gen.asend(sent)
+                    else:
+                        item = await async_gen.__anext__()
+                except StopAsyncIteration:
+                    return
                 sent = yield item
-                if sent is not None:
-                    try:
-                        await async_gen.asend(sent)
-                    except StopAsyncIteration:
-                        return
 
         return async_generator
 
